@@ -3,6 +3,7 @@ package checks
 import (
 	"errors"
 	"fmt"
+	"google.golang.org/protobuf/reflect/protoregistry"
 	"sort"
 	"strings"
 
@@ -407,6 +408,12 @@ func c18ValuesFor(el protoreflect.Message, salt int) []c18Value {
 		add("wrong-type:complex", lib.NameA())
 	} else {
 		add("wrong-type:primitive", fhir.String("x"))
+		// another element type that merely has the same short name (Patient.Contact / Organization.Contact, Patient.Link / Person.Link)
+		if sib := c18SameShortName(el.Descriptor()); sib != nil {
+			if b, ok := sib.New().Interface().(fhir.Base); ok {
+				add("wrong-type:same-short-name", b)
+			}
+		}
 		if full != "google.fhir.r4.core.HumanName" {
 			add("wrong-type:complex", lib.NameA())
 		} else {
@@ -414,6 +421,31 @@ func c18ValuesFor(el protoreflect.Message, salt int) []c18Value {
 		}
 	}
 	return vs
+}
+
+var c18ShortNames map[string][]protoreflect.MessageType
+
+// c18SameShortName: a registered R4 message type other than md whose (unqualified) name is md's
+func c18SameShortName(md protoreflect.MessageDescriptor) protoreflect.MessageType {
+	if c18ShortNames == nil {
+		c18ShortNames = map[string][]protoreflect.MessageType{}
+		protoregistry.GlobalTypes.RangeMessages(func(mt protoreflect.MessageType) bool {
+			if strings.HasPrefix(string(mt.Descriptor().FullName()), "google.fhir.r4.core.") {
+				n := string(mt.Descriptor().Name())
+				c18ShortNames[n] = append(c18ShortNames[n], mt)
+			}
+			return true
+		})
+		for _, l := range c18ShortNames {
+			sort.Slice(l, func(i, j int) bool { return l[i].Descriptor().FullName() < l[j].Descriptor().FullName() })
+		}
+	}
+	for _, mt := range c18ShortNames[string(md.Name())] {
+		if mt.Descriptor().FullName() != md.FullName() {
+			return mt
+		}
+	}
+	return nil
 }
 
 type c18Outcome struct {
